@@ -131,7 +131,7 @@ fn irrefutable(u: &Universe, ty: &Ty, depth: usize, rng: &mut Rng, binds: &mut V
 }
 
 fn main() {
-    // child mode: compile one program that may hang (adaptive probe)
+    // child mode: compile and run one regression program (it may hang or abort the process)
     let args: Vec<String> = std::env::args().collect();
     if args.len() >= 3 && args[1] == "--probe" {
         let src = std::fs::read_to_string(&args[2]).unwrap();
@@ -144,64 +144,70 @@ fn main() {
     let quick = ctx.quick();
     let out_dir = ctx.out_dir.clone();
 
-    // ---- adaptive probes for the fixes in flight: a shape enters the main stream once the
-    //      implementation agrees with the reference on its probe program
-    let probe = |name: &str, body: &str, expect: &str| -> bool {
+    // ---- hard regression checks for the repaired defects (D27, D31, D46, D47 incl. the compile hang):
+    //      each program must print the expected output; every one runs in a child process under a
+    //      time limit; a timeout only counts after a second run, alone, with a generous limit, so that
+    //      machine load cannot raise a false alarm.  The shapes are unconditionally in the main stream.
+    let run_probe = |name: &str, body: &str, limit_s: u64| -> Result<String, String> {
         let path = out_dir.join(format!("probe_{name}.abra"));
         std::fs::write(&path, body).unwrap();
         let exe = std::env::current_exe().unwrap();
-        let mut child = match std::process::Command::new(exe)
+        let mut child = std::process::Command::new(exe)
             .arg("--probe").arg(&path).arg("x")
-            .stdout(std::process::Stdio::piped()).stderr(std::process::Stdio::null()).spawn() {
-            Ok(c) => c,
-            Err(_) => return false,
-        };
+            .stdout(std::process::Stdio::piped()).stderr(std::process::Stdio::null()).spawn()
+            .map_err(|e| format!("cannot start the probe process: {e}"))?;
         let t0 = std::time::Instant::now();
         loop {
             match child.try_wait() {
                 Ok(Some(_)) => break,
-                Ok(None) if t0.elapsed().as_secs() >= 10 => {
+                Ok(None) if t0.elapsed().as_secs() >= limit_s => {
                     let _ = child.kill();
                     let _ = child.wait();
-                    return false;
+                    return Err("timeout".into());
                 }
                 _ => std::thread::sleep(std::time::Duration::from_millis(20)),
             }
         }
-        let out = child.wait_with_output().map(|o| String::from_utf8_lossy(&o.stdout).to_string()).unwrap_or_default();
-        out.trim() == expect
+        let o = child.wait_with_output().map_err(|e| e.to_string())?;
+        let out = String::from_utf8_lossy(&o.stdout).trim().to_string();
+        if o.status.success() { Ok(out) } else { Ok(format!("{out} <abnormal exit {:?}>", o.status.code())) }
     };
-    let d31_ok = probe("d31", "type Foo =\n  | Bar(void)\n  | Baz\nlet t = (Foo.Bar(nil), false)\nlet r = match t {\n  (.Bar(_), true) -> 0\n  (.Bar(_), false) -> 2\n  (.Baz, _) -> 1\n}\nprintln(r)\n", "2");
-    let d47_ok = probe("d47", "type Foo =\n  | Aa(void)\n  | Bb\nlet s = Foo.Aa(nil)\nlet r = 100 + match s {\n  .Aa(_) -> 1\n  .Bb -> 2\n}\nprintln(r)\n", "101")
-        && probe("d47hang", "type Foo =\n  | Aa(void)\n  | Bb\nlet s = Foo.Aa(nil)\nlet r = 100 + match s {\n  .Aa(nil | _) -> 1\n  .Bb -> 2\n}\nprintln(r)\n", "101");
-    let d46_ok = probe("d46", "type Foo =\n  | Cc(bool, void)\n  | Dd\nlet s = Foo.Cc(true, nil)\nlet r = match s {\n  .Cc(true, _) -> 1\n  .Cc(false, _) -> 2\n  .Dd -> 3\n}\nprintln(r)\n", "1");
-    for (id, ok) in [("D31", d31_ok), ("D47", d47_ok), ("D46", d46_ok)] {
-        ctx.count(&format!("probe:{id}:{}", if ok { "agrees" } else { "still-fails" }));
+    let probes: [(&str, &str, &str); 6] = [
+        ("D27", "let t = (1, 4)\nlet r = match t {\n  (1 | 2, 3 | 4) -> 0\n  _ -> 1\n}\nprintln(r)\n", "0"),
+        ("D27b", "let t = (2, 3)\nlet r = match t {\n  (1 | 2, 3 | 4) -> 0\n  _ -> 1\n}\nprintln(r)\n", "0"),
+        ("D31", "type Foo =\n  | Bar(void)\n  | Baz\nlet t = (Foo.Bar(nil), false)\nlet r = match t {\n  (.Bar(_), true) -> 0\n  (.Bar(_), false) -> 2\n  (.Baz, _) -> 1\n}\nprintln(r)\n", "2"),
+        ("D46", "type Foo =\n  | Cc(bool, void)\n  | Dd\nlet s = Foo.Cc(true, nil)\nlet r = match s {\n  .Cc(true, _) -> 1\n  .Cc(false, _) -> 2\n  .Dd -> 3\n}\nprintln(r)\n", "1"),
+        ("D47", "type Foo =\n  | Aa(void)\n  | Bb\nlet s = Foo.Aa(nil)\nlet r = 100 + match s {\n  .Aa(_) -> 1\n  .Bb -> 2\n}\nprintln(r)\n", "101"),
+        ("D47hang", "type Foo =\n  | Aa(void)\n  | Bb\nlet s = Foo.Aa(nil)\nlet r = 100 + match s {\n  .Aa(nil | _) -> 1\n  .Bb -> 2\n}\nprintln(r)\n", "101"),
+    ];
+    let mut hang_regressed = false;
+    for (id, body, expect) in probes {
+        let mut got = run_probe(id, body, 20);
+        if got == Err("timeout".to_string()) {
+            // nothing else is running in this process at this point: run it again alone
+            got = run_probe(id, body, 240);
+        }
+        let ok = got.as_deref() == Ok(expect);
+        ctx.count(&format!("regression:{id}:{}", if ok { "passes" } else { "FAILS" }));
         if !ok {
-            ctx.notes.push(format!("{id}: the implementation still fails the probe program; the shape is kept out of the main stream (fix in flight)"));
+            if got == Err("timeout".to_string()) {
+                hang_regressed = true;
+            }
+            ctx.spec_fail(format!(
+                "{id} regression: the program below must print `{expect}`, the implementation gave `{}`:\n{body}",
+                match &got { Ok(o) => o.clone(), Err(e) => e.clone() }
+            ));
         }
     }
-    // sub-patterns on void payloads: the checker mis-aligns them (D31) and the binding code leaks (D47)
-    let avoid_void_payload_subpat = !(d31_ok && d47_ok) || avoid_d31();
-    AVOID_NAMED_VOID.store(!d47_ok, std::sync::atomic::Ordering::Relaxed);
+    // the only concession: when the compiler hangs again on an or-pattern under a void payload (already
+    // reported above as a violation), that shape is not compiled in-process, so that the run terminates
+    let avoid_void_payload_subpat = hang_regressed;
+    AVOID_NAMED_VOID.store(hang_regressed, std::sync::atomic::Ordering::Relaxed);
     MORE_BINDS.store(true, std::sync::atomic::Ordering::Relaxed);
-
-    // ---- D27 (repaired by b67d291): two or-patterns side by side; arms with several or-chains enter
-    //      the main stream while the implementation passes the probe
-    let d27_ok = {
-        let src = "let t = (1, 4)\nlet r = match t {\n  (1 | 2, 3 | 4) -> 0\n  _ -> 1\n}\nprintln(r)\n";
-        run_program(src).out.trim() == "0"
-    };
-    ctx.count(&format!("probe:D27:{}", if d27_ok { "agrees" } else { "still-fails" }));
-    if !d27_ok {
-        ctx.spec_fail("D27 regression: `match (1, 4) { (1 | 2, 3 | 4) -> 0  _ -> 1 }` does not take arm 0".to_string());
-    }
 
     let mut jobs: Vec<Job> = vec![];
     let mut tys = scrutinee_types();
-    if d46_ok {
-        tys.extend(scrutinee_types_d46());
-    }
+    tys.extend(scrutinee_types_d46());
     let n_cases = if quick { 420 } else { 9000 };
     let max_vals = if quick { 5 } else { 24 };
     let mut tries = 0;
@@ -213,7 +219,7 @@ fn main() {
             continue;
         }
         // every fifth case: a first arm with or-patterns in several components (the D27 shape)
-        let several_ors = d27_ok && made % 5 == 4 && matches!(ty, Ty::Tuple(_) | Ty::Struct(_));
+        let several_ors = made % 5 == 4 && matches!(ty, Ty::Tuple(_) | Ty::Struct(_));
         let mut arms = gen_arms(&u, &ty, &mut ctx.rng, avoid_void_payload_subpat);
         if several_ors {
             let comps = u.product_tys(&ty);
@@ -257,10 +263,6 @@ fn main() {
             continue;
         }
         if arms.iter().any(|p| or_chains(p) > 1) {
-            if !d27_ok {
-                ctx.count("skipped:D27-shape");
-                continue;
-            }
             ctx.count("with-several-or-chains");
         }
         made += 1;
